@@ -1,6 +1,7 @@
 package rules
 
 import (
+	"go/token"
 	"go/types"
 
 	"golang.org/x/tools/go/ssa"
@@ -134,6 +135,45 @@ func runDIFFENTRY(c *Ctx) {
 				if ir.Before(e, r) {
 					dominated = true
 				}
+			}
+			// (1b) the loop that drives the steps ends with success for two reasons only: the step function said
+			// "no more" (its stop sentinel), or a callback asked to stop. Ending it on anything else — an expired
+			// context, a counter — reports a complete diff that was cut short.
+			if dominated && step != nil && len(engine) > 0 && ir.Callee(engine[0].Common()) == step {
+				why := ""
+				for _, f := range ir.FactsAt(r.Block()) {
+					if f.From == nil || !ir.InstrReaches(engine[0], f.From.Instrs[len(f.From.Instrs)-1]) {
+						continue
+					}
+					cond := f.Cond
+					// err == Sentinel / errors.Is(err, Sentinel)
+					if bin, ok := cond.(*ssa.BinOp); ok && (bin.Op == token.EQL && f.Truth || bin.Op == token.NEQ && !f.Truth) {
+						if isSentinel(ir.ResolveCell(bin.X)) || isSentinel(ir.ResolveCell(bin.Y)) {
+							why = "the step function's stop sentinel"
+						}
+					}
+					if call, ok := cond.(*ssa.Call); ok && f.Truth {
+						if sc := ir.Callee(call.Call); sc != nil && sc.String() == "errors.Is" {
+							why = "the step function's stop sentinel"
+						}
+					}
+					// !keepGoing: result #0 of a call through a callback parameter
+					if ex, ok := cond.(*ssa.Extract); ok && ex.Index == 0 && !f.Truth {
+						if call, ok := ex.Tuple.(*ssa.Call); ok && ir.Callee(call.Call) == nil && !call.Call.IsInvoke() {
+							why = "a callback's answer 'stop'"
+						}
+					}
+					if call, ok := cond.(*ssa.Call); ok && !f.Truth && ir.Callee(call.Call) == nil && !call.Call.IsInvoke() {
+						why = "a callback's answer 'stop'"
+					}
+				}
+				if why == "" {
+					c.Violation(fn, pos, "diff loop ends with success for a reason of its own",
+						name+" leaves the loop that drives the diff steps and reports success although neither the step function signalled the end nor a callback asked to stop (an expired context, a limit): the caller takes the truncated report for the complete difference")
+					continue
+				}
+				c.OK(pos, "success return of "+name, "the loop ends on "+why, false)
+				continue
 			}
 			if dominated {
 				c.OK(pos, "success return of "+name, "after the diff state was created", false)
